@@ -117,6 +117,17 @@ def gen_rows(rng, sheet, page, lang, big):
 def check_rows(ctx, sheet, rows, hexd, hexh, files, via, all_ids=None):
     cols = sheet["cols"]
     types = {t for t, _ in cols}
+    # rows are read from one live EXD object in an order unrelated to how they are stored, some of them twice
+    # (front-to-back, back-to-front, random; re-reads of earlier rows after later ones)
+    rows = list(rows)
+    mode = ctx.rng.choice(["forward", "backward", "random", "random"])
+    if mode == "backward":
+        rows.reverse()
+    elif mode == "random":
+        ctx.rng.shuffle(rows)
+    if rows:
+        rows = rows + [rows[0]] + ctx.rng.sample(rows, min(len(rows), 3))
+    ctx.stats.classes["read-order:" + mode] += 1
     for rid, subs in rows:
         r = ctx.call("exd.read_row", hexd, hexh, rid)
         ctx.check_mon(r, ctx._insz, files=files)
@@ -248,7 +259,12 @@ def direct_case(ctx, rng, P):
     check_exh(ctx, r.value["exh"], sheet, [fh], "direct")
     page = rng.randrange(len(sheet["pages"]))
     rows = gen_rows(rng, sheet, page, 0, P["big"])
-    exd = ex.build_exd(sheet["data_offset"], sheet["cols"], rows, subrow_sheet=sheet["subrow"], junk=rng.choice([b"", b"\0" * 8, b"\xCD" * 3]))
+    index_order = None
+    if len(rows) >= 2 and rng.random() < 0.4:
+        index_order = list(range(len(rows)))
+        rng.shuffle(index_order) if rng.random() < 0.7 else index_order.reverse()
+    exd = ex.build_exd(sheet["data_offset"], sheet["cols"], rows, subrow_sheet=sheet["subrow"], junk=rng.choice([b"", b"\0" * 8, b"\xCD" * 3]), index_order=index_order)
+    ctx.stats.classes["exd-index:%s" % ("permuted" if index_order else "storage-order")] += 1
     fd = ctx.write("s.exd", exd)
     ctx._insz = len(exd) + len(exh)
     r2 = ctx.call("exd.parse", fd, input_bytes=len(exd))
